@@ -20,6 +20,7 @@ import (
 	"log"
 	"math"
 	"math/bits"
+	"os"
 	"path/filepath"
 	"sort"
 	"strconv"
@@ -456,6 +457,12 @@ func (c *c06env) newState(ci *c06inst, collide bool) *c06state {
 	for lane := 0; lane < 64; lane++ {
 		for r := 0; r < 96; r++ {
 			binary.LittleEndian.PutUint32(st.v[lane*1024+r*4:], c.value32())
+		}
+		// 64-bit integer operands (shift counts, addresses): small 64-bit values now and then
+		for _, r := range []int{c06Src0, c06Src1, c06Src2} {
+			if rng.Chance(30) {
+				binary.LittleEndian.PutUint64(st.v[lane*1024+r*4:], uint64(rng.Intn(70)))
+			}
 		}
 		// 64-bit float operands: give the register pairs a sane double now and then
 		if rng.Chance(50) {
@@ -1320,6 +1327,9 @@ func runC06(r *Run, rng *Rng, replay string) {
 				}
 				seen[op] = true
 				tableOps = append(tableOps, strconv.Itoa(op))
+				if only := os.Getenv("C06_ONLY"); only != "" && it.InstName != only {
+					continue
+				}
 				implemented := false
 				for vi, d := range c.variants(arch, format, it) {
 					inst, words, err := c.decode(arch, d)
